@@ -462,6 +462,23 @@ fn termination_family(seed: u64, tier: Tier) -> (Vec<(String, String)>, u64, Val
     }
     let target_threshold = *p.pick(&[0.0, 0.01, 0.5, 1.0]);
     let t_target = TargetProximity::<HCtx, Obj, Ind>::new(target.clone(), target_threshold);
+    // the composite criterion over a seeded subset of fresh members (the empty subset included: nothing configured). The
+    // variation member comes first, so that it sees every generation although `any` short-circuits.
+    let mask = p.below(16);
+    let mut members: Vec<Box<dyn Termination<Context = HCtx, Objective = Obj>>> = vec![];
+    if mask & 1 != 0 {
+        members.push(Box::new(MinVariation::<HCtx, Obj, Ind, String>::new_with_sample(sample, threshold, is_global, "cs".to_string())));
+    }
+    if mask & 2 != 0 {
+        members.push(Box::new(MaxGeneration::<HCtx, Obj, Ind>::new(max_gen)));
+    }
+    if mask & 4 != 0 {
+        members.push(Box::new(MaxTime::<HCtx, Obj, Ind>::new(max_time)));
+    }
+    if mask & 8 != 0 {
+        members.push(Box::new(TargetProximity::<HCtx, Obj, Ind>::new(target.clone(), target_threshold)));
+    }
+    let t_composite = CompositeTermination::<HCtx, Obj, Ind>::new(members);
     let period_start = sys::clock_now_ns();
     let _ = period_start;
 
@@ -515,19 +532,24 @@ fn termination_family(seed: u64, tier: Tier) -> (Vec<(String, String)>, u64, Val
         let best_now: Vec<f64> = ctx.ranked().next().map(|i| i.fit.clone()).unwrap_or_default();
         history.push(best_now.clone());
 
+        // ---- composite: read before its members' twins (the clock only moves forward)
+        let composite_estimate = t_composite.estimate(&ctx);
+        let composite_fired = t_composite.is_termination(&mut ctx);
         // ---- estimates in [0, 1]
-        for (name, e) in [("max-time", t_time.estimate(&ctx)), ("max-generation", t_gen.estimate(&ctx)), ("min-variation", t_sample.estimate(&ctx)), ("target", t_target.estimate(&ctx))] {
+        for (name, e) in [("composite", composite_estimate), ("max-time", t_time.estimate(&ctx)), ("max-generation", t_gen.estimate(&ctx)), ("min-variation", t_sample.estimate(&ctx)), ("target", t_target.estimate(&ctx))] {
             if !(0.0..=1.0).contains(&e) {
                 issues.push(("estimate-out-of-range".into(), format!("step {step}: {name} estimate = {e}")));
             }
         }
         // ---- max generation
         let fired = t_gen.is_termination(&mut ctx);
+        let fired_gen = fired;
         if fired != (generation >= max_gen) {
             issues.push(("max-generation".into(), format!("step {step}: generation {generation} limit {max_gen} fired={fired}")));
         }
         // ---- variation over exactly the last `sample` best-fitness vectors
         let fired = t_sample.is_termination(&mut ctx);
+        let fired_sample = fired;
         let phase_ok = is_global || ctx.phase == 2;
         if history.len() >= sample && generation + 1 >= sample {
             let window = &history[history.len() - sample..];
@@ -585,11 +607,35 @@ fn termination_family(seed: u64, tier: Tier) -> (Vec<(String, String)>, u64, Val
                 issues.push(("target-proximity".into(), format!("step {step}: best fitness {:?}, target {:?}: relative distance {d}, threshold {target_threshold}, fired={fired}", best_now, target)));
             }
         }
+        // ---- composite fires exactly when one of its members does (the time member's twin is read later: one-sided)
+        {
+            let others = (mask & 1 != 0 && fired_sample) || (mask & 2 != 0 && fired_gen) || (mask & 8 != 0 && fired);
+            let time_member = mask & 4 != 0;
+            if (others && !composite_fired) || (composite_fired && !others && !(time_member && fired_time)) {
+                issues.push(("composite".into(), format!("step {step}: composite over members {mask:04b} (variation, generation, time, target) fired={composite_fired}; twins fired: variation={fired_sample} generation={fired_gen} time={fired_time} target={fired}")));
+            }
+        }
         if issues.len() > 8 {
             break;
         }
     }
-    (issues, steps as u64, json!({"family": "terminations", "steps": steps, "layers": layers, "sample": sample, "period_s": period, "threshold": threshold, "skipped_near_threshold": skipped}))
+    // ---- weighted choice (operator groups, initial methods): an entry with weight zero is switched off
+    {
+        let n = p.usize(1, 6);
+        let mut weights: Vec<usize> = (0..n).map(|_| if p.chance(0.35) { 0 } else { p.usize(1, 30) }).collect();
+        if weights.iter().all(|w| *w == 0) {
+            let at = p.usize(0, n - 1);
+            weights[at] = p.usize(1, 5);
+        }
+        for draw in 0..300 {
+            let idx = random.weighted(&weights);
+            if idx >= n || weights[idx] == 0 {
+                issues.push(("weighted-choice".into(), format!("draw {draw}: weighted({weights:?}) returned index {idx}")));
+                break;
+            }
+        }
+    }
+    (issues, steps as u64, json!({"family": "terminations", "composite_members": mask, "steps": steps, "layers": layers, "sample": sample, "period_s": period, "threshold": threshold, "skipped_near_threshold": skipped}))
 }
 
 // ------------------------------------------------------------------------------------------------
